@@ -98,19 +98,25 @@ func genHistory(c *core.Ctx, i int, maxLen int) *history {
 	}
 	// two more special families (C09 only): a block size far above any buffer the writer may have planned for,
 	// and consecutive blocks that differ in content but agree in length and CRC-32
-	giant, twins, exactMiB := 0, false, false
+	giant, twins, exactMiB, manyBlocks := 0, false, false, false
 	if j := i - 2*len(cases) - len(sizeSweep); j >= 0 && maxLen > 100 {
 		switch {
 		case j < 3:
 			giant = []int{17 << 20, 32 << 20, 24<<20 + 1}[j]
 		case j < 11:
 			twins = true
-		case j < 14:
+		case j < 17:
+			if j >= 14 {
+				// thousands of blocks in one file: one large block early, then small ones (whatever a compressor
+				// or writer reconsiders every so many blocks)
+				manyBlocks = true
+				break
+			}
 			// records whose encoding is exactly 1 MiB, so that blocks are exact multiples of 2^20 bytes (null codec)
 			exactMiB = true
 			giant = []int{2 << 20, 3 << 20, 4 << 20}[j-11]
 		}
-		if giant > 0 || twins {
+		if giant > 0 || twins || manyBlocks {
 			for _, sc := range cases {
 				if sc.Name == "HBytes" {
 					h.sc = sc
@@ -148,6 +154,9 @@ func genHistory(c *core.Ctx, i int, maxLen int) *history {
 	if twins {
 		nv = 2 + r.IntN(3)
 	}
+	if manyBlocks {
+		nv = 2
+	}
 	sizes := []int{}
 	for k := 0; k < nv; k++ {
 		o := gen.ValOpts{MaxMapEntries: 1, NoBigStrings: r.IntN(4) != 0}
@@ -166,9 +175,12 @@ func genHistory(c *core.Ctx, i int, maxLen int) *history {
 			}
 			v.FieldByName("B").SetBytes(b)
 		}
-		if giant > 0 || twins {
+		if giant > 0 || twins || manyBlocks {
 			v = reflect.New(h.sc.RT).Elem()
 			n := 16 + r.IntN(200)
+			if manyBlocks && k == 0 {
+				n = 100<<10 + r.IntN(4096)
+			}
 			if giant > 0 {
 				n = 1<<20 + r.IntN(4096)
 			}
@@ -268,6 +280,19 @@ func genHistory(c *core.Ctx, i int, maxLen int) *history {
 		}
 		h.ops = append(h.ops, histOp{flush: true})
 		c.Count("giant-block-size-histories", 1)
+	}
+	if manyBlocks {
+		h.comp = compressions[i%3]
+		if i%3 != 1 {
+			h.comp = avro.CompressionSnappy
+		}
+		h.bs, h.bsCls = 0, "zero/many-blocks"
+		h.ops = []histOp{{val: 0}}
+		for k := 0; k < 2100+r.IntN(300); k++ {
+			h.ops = append(h.ops, histOp{val: 1})
+		}
+		h.ops = append(h.ops, histOp{flush: true})
+		c.Count("many-block-histories", 1)
 	}
 	if twins {
 		h.bs, h.bsCls = 0, "zero/crc32-twins"
@@ -501,7 +526,12 @@ type failingWriter struct {
 	fallback     []byte
 	fallbackErr  error
 	fallbackDone bool
+	// Encoder histories: a second Flush after the failure, during which the writer fails again with errSecondFailure
+	retryDone, retryWrote, retryPanicked bool
+	retryErr                             error
 }
+
+var errSecondFailure = errors.New("second, different write failure")
 
 func (w *failingWriter) Write(p []byte) (int, error) {
 	w.n++
@@ -575,6 +605,26 @@ func runEncoderHistory(h *history, w *failingWriter, sink io.Writer) (res []call
 		res = append(res, cr)
 		return cr.err != nil || cr.pan != nil || w.failed
 	}
+	// the caller keeps the Encoder after a failure and flushes again; if that call makes the writer fail once more,
+	// with another error, it is that error the call has to report
+	defer func() {
+		if !w.failed || sess == nil {
+			return
+		}
+		n0 := w.n
+		w.failAt, w.err, w.mode = w.n+1, errSecondFailure, 0
+		var err error
+		func() {
+			defer func() {
+				if r := recover(); r != nil {
+					err = fmt.Errorf("panic: %v", r)
+					w.retryPanicked = true
+				}
+			}()
+			err = sess.Flush()
+		}()
+		w.retryDone, w.retryWrote, w.retryErr = true, w.n > n0, err
+	}()
 	if call(func() error {
 		var err error
 		sess, err = h.sc.NewSession(sink, h.comp, h.bs)
@@ -805,6 +855,23 @@ func runC16(c *core.Ctx, i int) {
 			if d := maskedPrefixCheck(w.buf.Bytes(), full, pos); d != "" {
 				c.Violate("prefix", fmt.Sprintf("%s: %s [%s]", what, d, h.desc), h.rep(w.buf.Bytes()))
 				return
+			}
+			if w.retryDone {
+				c.Count("flushes-retried-after-failure", 1)
+				switch {
+				case w.retryPanicked:
+					c.Violate("panic", fmt.Sprintf("%s: a Flush after the failed call panicked: %v [%s]", what, w.retryErr, h.desc), h.rep(w.buf.Bytes()))
+					return
+				case w.retryWrote && w.retryErr == nil:
+					c.Violate("swallowed", fmt.Sprintf("%s: a second Flush made the writer fail again and returned nil [%s]", what, h.desc), h.rep(w.buf.Bytes()))
+					return
+				case w.retryWrote && !errors.Is(w.retryErr, errSecondFailure):
+					c.Violate("not-wrapped", fmt.Sprintf("%s: a second Flush made the writer fail with %q and returned %q, which does not wrap it [%s]", what, errSecondFailure, w.retryErr, h.desc), h.rep(w.buf.Bytes()))
+					return
+				}
+				if w.retryWrote {
+					c.Count("second-failures-reported", 1)
+				}
 			}
 			if fbw := w2sink(w, rich); fbw.fallbackDone {
 				c.Count("fallback-destinations", 1)
